@@ -121,8 +121,8 @@ func leavesBlock(body *ast.BlockStmt) string {
 
 func runDup(c *core.Ctx) []core.Obligation {
 	var obs []core.Obligation
-	p := &purity{c: c, memo: map[*ssa.Function]int{}}
-	chains, ifs := 0, 0
+	p := &purity{c: c, memo: map[*ssa.Function]int{}, allowReads: true}
+	chains, ifs, clamps, calls := 0, 0, 0, 0
 	for _, pkg := range c.Pkgs {
 		info := pkg.TypesInfo
 		for _, file := range pkg.Syntax {
@@ -177,7 +177,51 @@ func runDup(c *core.Ctx) []core.Obligation {
 							}
 							seen[txt] = true
 						}
+					case *ast.IfStmt:
+						// (c) a clamp "if a < b { a = b }" that assigns something other than the bound it tested
+						if x.Else == nil && x.Init == nil && len(x.Body.List) == 1 {
+							if cmp, ok := x.Cond.(*ast.BinaryExpr); ok && (cmp.Op == token.LSS || cmp.Op == token.LEQ || cmp.Op == token.GTR || cmp.Op == token.GEQ) {
+								if as, ok := x.Body.List[0].(*ast.AssignStmt); ok && as.Tok == token.ASSIGN && len(as.Lhs) == 1 && len(as.Rhs) == 1 {
+									clamps++
+									l, r := types.ExprString(cmp.X), types.ExprString(cmp.Y)
+									a, v := types.ExprString(as.Lhs[0]), types.ExprString(as.Rhs[0])
+									bound, boundExpr := "", ast.Expr(nil)
+									if a == l {
+										bound, boundExpr = r, cmp.Y
+									} else if a == r {
+										bound, boundExpr = l, cmp.X
+									}
+									if bound != "" && v != bound {
+										// a constant bound with a different constant value is a wrap-around (x <= -pi -> x = pi), not a clamp
+										_, boundConst := info.Types[boundExpr]
+										if tv := info.Types[boundExpr]; tv.Value == nil && boundConst && sideEffectFree(c, info, p, boundExpr) && sideEffectFree(c, info, p, as.Rhs[0]) {
+											if tv2 := info.Types[as.Rhs[0]]; tv2.Value == nil {
+												report(x.Pos(), fmt.Sprintf("`if %s { %s = %s }` compares %s with %s but then assigns %s: a clamp that was meant to raise (lower) the value to the bound it tested uses a different variable", types.ExprString(x.Cond), a, v, a, bound, v))
+											}
+										}
+									}
+								}
+							}
+						}
 					case *ast.BlockStmt:
+						// (d) two consecutive assignments with the same side-effect-free call on the right: the second repeats
+						// the first instead of handling the sibling argument it was copied for
+						for i := 0; i+1 < len(x.List); i++ {
+							a1, ok1 := x.List[i].(*ast.AssignStmt)
+							a2, ok2 := x.List[i+1].(*ast.AssignStmt)
+							if !ok1 || !ok2 || len(a1.Rhs) != 1 || len(a2.Rhs) != 1 {
+								continue
+							}
+							c1, isC1 := a1.Rhs[0].(*ast.CallExpr)
+							c2, isC2 := a2.Rhs[0].(*ast.CallExpr)
+							if !isC1 || !isC2 || len(c1.Args) < 2 {
+								continue
+							}
+							calls++
+							if types.ExprString(c1) == types.ExprString(c2) && sideEffectFree(c, info, p, c1) {
+								report(a2.Pos(), fmt.Sprintf("two consecutive statements evaluate the same call `%s`: the second was meant for the sibling argument (the other endpoint, the other edge), which is now never examined", types.ExprString(c1)))
+							}
+						}
 						for i := 0; i+1 < len(x.List); i++ {
 							a, ok1 := x.List[i].(*ast.IfStmt)
 							b, ok2 := x.List[i+1].(*ast.IfStmt)
@@ -200,6 +244,6 @@ func runDup(c *core.Ctx) []core.Obligation {
 			}
 		}
 	}
-	obs = append(obs, core.Ob("R-DUP", "scan", "-", "", core.Discharged, fmt.Sprintf("%d &&/|| chains and %d pairs of consecutive if statements examined across the library; no duplicated test", chains, ifs)))
+	obs = append(obs, core.Ob("R-DUP", "scan", "-", "", core.Discharged, fmt.Sprintf("%d &&/|| chains, %d pairs of consecutive if statements %d clamp statements and %d pairs of consecutive call assignments examined across the library; no duplicated test, no clamp to a value other than the tested bound, no repeated call", chains, ifs, clamps, calls)))
 	return obs
 }
